@@ -869,29 +869,40 @@ const BASELINE_NS: f64 = 10.0;
 
 /// Slack the documented algorithm may need for one entry, from what was recorded for it
 pub fn entry_slack(e: &EntryRecord, limit: u64, g: u64) -> (u64, f64) {
+    // Derivation (documented algorithm). At a check at time t_k (not yet timed out) the next
+    // interval is sized n' = n * target / elapsed with target = min(L/10, deadline - reading).
+    // Its true duration is n' * c' (+ its largest single charge), c' being the mean own cost of
+    // its instructions, so it lasts about target * rho with rho = c' / (measured mean cost of the
+    // previous interval; 10 ns - the release baseline - for the first one). Only the interval in
+    // which the deadline passes matters: the check that ends it fires. Hence the last
+    // instruction of an entry begins no later than
+    //     deadline + f * (L/10) * rho_final + 2g * rho_final + m1 + 7 m2 + 2g
+    // with f = 1 for an exact clock and 2 for a granular one (a non-zero reading of an elapsed
+    // time is at least half the true time), the 2g*rho term for intervals whose two readings
+    // were equal (interval left unchanged, shorter than g), m1/m2 the two largest single
+    // charges (an interval of fewer than 8 instructions lasts at most m1 + 7 m2; a nested
+    // entry is one charge of the entry that issued it and is checked on its own).
     let interval = limit as f64 / 10.0;
-    let mut rho_star: f64 = 1.0;
+    let mut rho_final: f64 = 1.0;
     let mut prev_cost = BASELINE_NS;
     for iv in &e.intervals {
         let own = iv.dur.saturating_sub(iv.max_charge) as f64 / (iv.n.saturating_sub(1).max(1)) as f64;
+        // the last interval of at least 8 instructions decides (shorter ones - at most one of
+        // them straddles the deadline - are covered by m1 + 7 m2)
         if iv.n >= 8 && prev_cost > 0.0 {
-            let rho = own / prev_cost;
-            if rho > rho_star {
-                rho_star = rho;
-            }
+            rho_final = (own / prev_cost).max(1.0);
         }
         if iv.n > 0 && iv.dur > 0 {
             prev_cost = iv.dur as f64 / iv.n as f64;
         }
     }
-    let g = if g <= 1 { 0.0 } else { g as f64 };
-    // an interval of fewer than 8 instructions lasts at most m1 + 7 m2 (the two largest charges)
-    let slack = (4.0 * interval + 2.0 * g) * rho_star
+    let (g, f) = if g <= 1 { (0.0, 1.0) } else { (g as f64, 2.0) };
+    let slack = (f * interval + 2.0 * g) * rho_final
         + e.max_charge as f64
         + 7.0 * e.second_charge as f64
         + 2.0 * g
         + 16.0;
-    (slack.min(1e18) as u64, rho_star)
+    (slack.min(1e18) as u64, rho_final)
 }
 
 pub fn is_timeout_text(s: &str) -> bool {
